@@ -45,12 +45,15 @@ def replay_history(req, tmp):
         r0 = R.SgzReader(C.path, **kw)
         who = lambda k, m: r0
     steps = []
+    kept = None
     for k, m in enumerate(ms[:-1]):
         a = [m_['h%d_%s' % (k, n)] for n in m.argn]
         obj = who(k, m)
         obj._verif_stored = tuple(C.stored)
         try:
-            quiet(m.call, obj, a)
+            r_k = quiet(m.call, obj, a)
+            if k == 0 and m.kind == 'voxels' and config != 'two-files':
+                kept = (m, a, r_k)      # held by the caller, NOT copied
             steps.append('%s%s' % (m.name, tuple(a)))
         except Exception as e:
             steps.append('%s%s raised %s' % (m.name, tuple(a), type(e).__name__))
@@ -71,4 +74,15 @@ def replay_history(req, tmp):
     bad = compare_result(C, res, req)
     if bad is not None:
         return dict(reproduced=True, detail=hist + bad[1], extra=dict(outcome=bad[0]))
+    if kept is not None:
+        # the array the first call returned, still held by the caller, must still be the slice it denoted
+        m0, a0, r0 = kept
+        C0 = NS()
+        C0.__dict__.update(C.__dict__)
+        C0.m, C0.args = m0, a0
+        C0.call = 'the array returned earlier by %s%s' % (m0.name, tuple(a0))
+        bad = compare_result(C0, r0, dict(req, method=m0.name))
+        if bad is not None:
+            return dict(reproduced=True, detail=hist + 'and the later %s: ' % C.call + bad[1] + ' (it was changed by the later read)',
+                        extra=dict(outcome='kept-' + bad[0]))
     return dict(reproduced=False, detail=hist + '%s equals what a fresh reader returns' % C.call)
